@@ -1,7 +1,7 @@
 #!/usr/bin/env python3
 """Regenerate section 8 of DESIGN.md from mutants/*/RESULTS.md and seeded/*/meta.json."""
 import glob, json, os, re
-rows=[]; nq=nt=nn=0; hist_n=0; per_round={}; r3_missed=0
+rows=[]; nq=nt=nn=0; hist_n=0; per_round={}; r3_missed=0; invalid=[]; r4_missed=0
 for f in sorted(glob.glob('/verif/seeded/*/meta.json')):
     m=json.load(open(f)); d=os.path.dirname(f); name=os.path.basename(d)
     note=''
@@ -11,6 +11,8 @@ for f in sorted(glob.glob('/verif/seeded/*/meta.json')):
         txt=re.sub(r'\*\*|`','',txt)
         note=txt[:200].rsplit(' ',1)[0]+' …'
     q,t=m.get('check_quick_exit'),m.get('check_thorough_exit')
+    if not m['confirmed'].get('valid'):
+        invalid.append(name); continue
     if m.get('override'): res=m['override']; nn+=1
     elif q=='1': res='quick'; nq+=1
     elif t=='1': res='thorough only'; nt+=1
@@ -22,6 +24,7 @@ for f in sorted(glob.glob('/verif/seeded/*/meta.json')):
     per_round.setdefault(rnd,[0,0,0,0]); per_round[rnd][0]+=1
     per_round[rnd][1 if res.startswith('quick') else (2 if res.startswith('thorough') else 3)]+=1
     if rnd==3 and (m.get('history') or m.get('override')): r3_missed+=1
+    if rnd==4 and (m.get('history') or m.get('override')): r4_missed+=1
     rows.append('| %s | %d | %s | %s |'%(name,rnd,res,note.replace('|','/')))
 mut=[]
 for f in sorted(glob.glob('/verif/mutants/*/RESULTS.md')):
@@ -42,10 +45,11 @@ analysed in the RESULTS.md of the property: they are equivalent mutants or outsi
 '''+'\n'.join(mut)+'''
 
 ### 8.2 Independently seeded changes (`seeded/<ID>-<k>/`: patch.diff, demonstration, note.md, meta.json)
-Three rounds over all 33 properties (round 3 in two batches: first the 20 properties whose checks rest on the shared DAG generators
-or had needed strengthening before, then the other 13). For every property and round a fresh sub-agent that saw only the property text (rounds 2 and 3: plus a
-one-paragraph description of the earlier changes of that property, to avoid repeats; round 3 asked explicitly for changes that need
-something specific to show - a size, a call order, a configuration, a fault) and its own scratch worktree - nothing from /verif - wrote two
+Four rounds: rounds 1-3 over all 33 properties (round 3 in two batches), round 4 over the 20 properties with the richest state
+(C01-C10, C14-C18, C22, C23, C25, C26, C28). For every property and round a fresh sub-agent that saw only the property text (rounds 2-4: plus a
+one-paragraph description of the earlier changes of that property, to avoid repeats; rounds 3 and 4 asked explicitly for changes that need
+something specific to show - a size, a call order, a configuration, a fault - round 4 also for violations reachable by a
+legitimate caller only) and its own scratch worktree - nothing from /verif - wrote two
 changes that break the property, compile, and keep the repository's suite passing, each with a demonstration that fails with the
 change and passes without it. `tools/seedcheck` re-confirmed all of that in a scratch worktree (demo passes on the clean tree, fails
 with the change, `go test ./...` passes with the change) and then ran `./check <ID> quick` (and `thorough` when quick missed it)
@@ -58,7 +62,13 @@ several flushes without a reload, Start-Enqueue-Stop), a configuration (no Relea
 errors), a caller habit (keeping returned objects, releasing an iterator twice, mutating a map after passing it) or a schedule (Drop during
 Flush, receipts while the loop is busy, an open during a slow close, two blocked callers with different deadlines, concurrent
 encoders); each became a generated class, except a Drop before Close through the caching producer (C27-2, C27-6), which every store
-of the repository refuses with a panic. In round 2 I also strengthened some generators after reading the seeding agent's
+of the repository refuses with a panic. Round 4: %d of its %d confirmed changes were missed at first (a validator cut off for more than 100 frames, an index
+object that served a group of another size before, frame-independent event IDs, an application that keeps editing its builders, a built
+and abandoned attempt at the same epoch, unverified Lamport claims, Clear during a cascade, full task queues, 16+ peers, flushes above
+100 KiB, repeated flush IDs); one of them (C03-8: consecutive Atropoi with non-nested views of a fork) is still NOT caught - a class
+counter and a generator mode were added for it, but 7000 generated DAGs did not contain the shape - and three are caught in the thorough
+tier only (C01-8, C05-8, C28-8). One round-4 delivery (%s) could not be confirmed (its demonstration passes with the change applied in
+re-validation) and is not counted. In round 2 I also strengthened some generators after reading the seeding agent's
 summary but *before* the first evaluation (C02 long epochs, C03 retained cheater lists and Reset, C04 deep lag, C05 index reuse after
 Reset, C06 two parents of one forker, C09 Reset to the current epoch, C11 RLP-decoded sets, C12 large sets, C13 long-lived checkers):
 those rows read "quick" without a note although the original generator would probably have missed them. No oracle was weakened or
@@ -66,14 +76,16 @@ removed because of a seeded change.
 
 | change | round | caught by `./check <ID>` | what it does / what it needs (from the seeding agent's note) |
 |---|---|---|---|
-'''%(len(rows),nq,nt,nn,'; '.join('round %d: %d / %d / %d / %d'%(r,*per_round[r]) for r in sorted(per_round)),hist_n,r3_missed,per_round.get(3,[0])[0])+'\n'.join(rows)+'''
+'''%(len(rows),nq,nt,nn,'; '.join('round %d: %d / %d / %d / %d'%(r,*per_round[r]) for r in sorted(per_round)),hist_n,r3_missed,per_round.get(3,[0])[0],r4_missed,per_round.get(4,[0])[0],', '.join(invalid) or 'none')+'\n'.join(rows)+'''
 
 Thorough-only catches share one cause: they need a rare conjunction that random generation reaches about once in 10^3-10^4 cases
 (a decision taken on a non-final root slot of an event that is a root of several frames - C01-2, C09-4 and the `no_sealed_break`
 mutant; a third fork branch numbered differently by two delivery orders - C01-4; two fork roots of one validator in one cached
 frame - C08-2; the same root winning two consecutive frames - C02-4; a tick of the leecher's timer racing with UnregisterPeer - C18-4;
 a forker beyond sorted index 63 whose double-counted weight tips a quorum - C01-5, about one many-validators case in five, of which the
-quick tier draws about four; `./check C10 quick` catches the same change through Build against the reference).
+quick tier draws about four; `./check C10 quick` catches the same change through Build against the reference; C05-8 is the same
+mechanism seen from the index; C01-8 needs a lagging root that decides the lowest undecided frame by a vote in a non-top slot; C28-8
+needs a Get that overlaps another call and a later operation that depends on the recency order).
 
 Lessons that changed the generators: boundary classes must include the values callers use for "unlimited" (C14), sizes beyond one
 machine word of flags or a sort's small-input path (C11, C12, C24), operations whose *lifetime spans* another operation (a batch across
